@@ -565,6 +565,9 @@ class BaseNode402(RemoteNode):
             raise ValueError(
                 f'Target state {target_state} cannot be entered programmatically')
         from_state = self.state
+        if from_state == target_state:
+            # The drive has arrived since the caller looked, nothing to command
+            return target_state
         if (from_state, target_state) in State402.TRANSITIONTABLE:
             return target_state
         else:
